@@ -377,7 +377,7 @@ func c19Fanout(p *Program, r *Report) {
 // okEdgesNext: the edges on which the range iterator yielded an element.
 func (g *IG) okEdgesNext(next *ssa.Next) (okE, doneE map[edge]bool) {
 	okE, doneE = map[edge]bool{}, map[edge]bool{}
-	for _, ifi := range ifsOf(g.Fn) {
+	for _, ifi := range g.ifs() {
 		for _, outcome := range []bool{true, false} {
 			f, ok := condFact(ifi.Cond, outcome)
 			if !ok || !f.Bool {
